@@ -305,14 +305,14 @@ theorem case_simple_def (tys : List Ty) (row : Row) (x : Expr) (xv : Value)
 
 /-- a string function of NULL is NULL, of a text its defining value; of anything else a type error -/
 theorem strfn_def (tys : List Ty) (row : Row) (f : StrFn) (e : Expr) (v : Value)
-    (h : eval .none tys row e = .ok v) :
+    (h : eval .none tys row e = .ok v) (hf : f.isNumeric = false) :
     eval .none tys row (.strFn f e) =
       match v with
       | .null => .ok .null
       | .text s => .ok (applyStrFn f s)
       | _ => .error .type := by
   simp only [eval, h]
-  cases v <;> rfl
+  cases v <;> simp [strFn1, hf]
 
 /-- `a || b` is the concatenation; NULL if either side is NULL -/
 theorem concat_def (tys : List Ty) (row : Row) (a b : Expr) (x y : List Nat) :
@@ -469,11 +469,162 @@ theorem trim_concat_laws (s t u : List Nat) :
 theorem double_compare_only (op : CmpOp) (a b : Int) (ty : Ty) (aop : ArithOp) (v : Value) (hv : v ≠ .null) :
     cmp3 op (.dbl a) (.dbl b) = some (op.holds (cmpInt a b)) ∧
     cmp3 op (.dbl a) .null = none ∧
-    (castTo ty (.dbl a) = if ty = .double then .ok (.dbl a) else .error .type) ∧
-    arith .none aop (.dbl a) v = .error .type := by
+    (castTo ty (.dbl a) = if ty = .double ∨ ty = .float then .ok (.dbl a) else .error .type) ∧
+    (∀ uns, arith .none uns aop (.dbl a) v = .error .type) := by
   refine ⟨rfl, rfl, ?_, ?_⟩
-  · cases ty <;> rfl
-  · cases v <;> first | exact absurd rfl hv | rfl
+  · cases ty <;> simp [castTo]
+  · intro uns; cases v <;> first | exact absurd rfl hv | rfl
+
+/-! ## Integer arithmetic (the promotion table), COALESCE, NULLIF, ABS / CEIL / FLOOR / ROUND, casts -/
+
+/-- integer arithmetic is the promotion table of the engine: division or modulo by zero is an error; otherwise the result
+    is the exact integer result if the promoted type holds it — BIGUINT (0 … 2^64 - 1) when both operands are of an
+    unsigned kind, BIGINT (-2^63 … 2^63 - 1) for every other pair — and an overflow error if it does not -/
+theorem int_arith_def (tys : List Ty) (row : Row) (op : ArithOp) (a b : Expr) (x y : Int)
+    (ha : eval .none tys row a = .ok (.int x)) (hb : eval .none tys row b = .ok (.int y)) :
+    eval .none tys row (.arith op a b) =
+      if (op = .div ∨ op = .mod) ∧ y = 0 then .error .divzero
+      else if fitsPromoted (rtUnsigned tys a && rtUnsigned tys b) (exactInt op x y) then .ok (.int (exactInt op x y))
+      else .error .overflow := by
+  simp only [eval, ha, hb, arith, arithInt, Defects.none, Bool.false_eq_true, if_false, Bool.and_eq_true,
+    Bool.or_eq_true, decide_eq_true_eq]
+
+/-- the ranges of the two result types -/
+theorem fitsPromoted_iff (r : Int) :
+    (fitsPromoted true r = true ↔ 0 ≤ r ∧ r ≤ 18446744073709551615) ∧
+    (fitsPromoted false r = true ↔ -9223372036854775808 ≤ r ∧ r ≤ 9223372036854775807) := by
+  simp only [fitsPromoted, fitsI64, i64Min, i64Max, u64Max, if_true, Bool.false_eq_true, if_false, Bool.and_eq_true,
+    decide_eq_true_iff]
+  exact ⟨⟨fun h => ⟨h.1, of_decide_eq_true h.2⟩, fun h => ⟨h.1, decide_eq_true h.2⟩⟩,
+    ⟨fun h => ⟨of_decide_eq_true h.1, of_decide_eq_true h.2⟩, fun h => ⟨decide_eq_true h.1, decide_eq_true h.2⟩⟩⟩
+
+/-- which operands are of an unsigned kind: columns of type UINT / BIGUINT and unsigned (op) unsigned; a literal never -/
+theorem promotion_table (tys : List Ty) (op : ArithOp) (a b : Expr) (i : Nat) (v : Value) :
+    rtUnsigned tys (.arith op a b) = (rtUnsigned tys a && rtUnsigned tys b) ∧
+    rtUnsigned tys (.col i) = (tys.getD i .bigint == .uint || tys.getD i .bigint == .biguint) ∧
+    rtUnsigned tys (.lit v) = false := by
+  refine ⟨rfl, ?_, rfl⟩
+  simp only [rtUnsigned]
+  cases tys.getD i .bigint <;> rfl
+
+/-- there is no unary minus on an unsigned value -/
+theorem neg_unsigned (tys : List Ty) (row : Row) (e : Expr) (x : Int)
+    (he : eval .none tys row e = .ok (.int x)) (hu : rtUnsigned tys e = true) :
+    eval .none tys row (.neg e) = .error .type := by
+  simp [eval, he, hu]
+
+theorem firstNonNull_spec (vs : List Value) :
+    (firstNonNull vs = .null ↔ ∀ v ∈ vs, v = .null) ∧
+    (∀ pre v post, vs = pre ++ v :: post → (∀ w ∈ pre, w = .null) → v ≠ .null → firstNonNull vs = v) := by
+  induction vs with
+  | nil => exact ⟨by simp [firstNonNull], fun pre v post h => by simp at h⟩
+  | cons x xs ih =>
+    constructor
+    · cases x <;> simp [firstNonNull, ih.1]
+    · intro pre v post h hp hv
+      cases pre with
+      | nil =>
+        simp only [List.nil_append, List.cons.injEq] at h
+        obtain ⟨rfl, _⟩ := h
+        cases x <;> first | exact absurd rfl hv | rfl
+      | cons p pre =>
+        simp only [List.cons_append, List.cons.injEq] at h
+        obtain ⟨rfl, hxs⟩ := h
+        have hx : x = .null := hp x (by simp)
+        subst hx
+        simp only [firstNonNull]
+        exact ih.2 pre v post hxs (fun w hw => hp w (by simp [hw])) hv
+
+/-- COALESCE evaluates all its arguments and returns the first that is not NULL (NULL if there is none), cast to the type
+    of the first argument that has a type -/
+theorem coalesce_def (tys : List Ty) (row : Row) (xs : List Expr) (vs : List Value)
+    (h : evalList .none tys row xs = .ok vs) :
+    eval .none tys row (.coalesce xs) = castTo ((inferFirst tys xs).getD .bool) (firstNonNull vs) ∧
+    (firstNonNull vs = .null ↔ ∀ v ∈ vs, v = .null) ∧
+    (∀ pre v post, vs = pre ++ v :: post → (∀ w ∈ pre, w = .null) → v ≠ .null → firstNonNull vs = v) := by
+  refine ⟨?_, (firstNonNull_spec vs).1, (firstNonNull_spec vs).2⟩
+  simp only [eval, Defects.none] at h ⊢
+  rw [h]
+
+/-- NULLIF(a, b) is NULL if a = b is TRUE and a otherwise (so also when b is NULL), with the type of a -/
+theorem nullif_def (tys : List Ty) (row : Row) (a b : Expr) (va vb : Value)
+    (ha : eval .none tys row a = .ok va) (hb : eval .none tys row b = .ok vb) :
+    eval .none tys row (.nullif a b) =
+      castTo (inferTy tys a) (if cmp3 .eq va vb = some true then .null else va) ∧
+    (vb = .null → eval .none tys row (.nullif a b) = castTo (inferTy tys a) va) ∧
+    (va ≠ .null → vb = va → eval .none tys row (.nullif a b) = .ok .null) := by
+  have key : eval .none tys row (.nullif a b) =
+      castTo (inferTy tys a) (if cmp3 .eq va vb = some true then .null else va) := by
+    simp only [eval, Defects.none] at ha hb ⊢
+    rw [ha, hb]
+    simp only []
+    by_cases hc : cmp3 .eq va vb = some true <;> simp [hc]
+  refine ⟨key, ?_, ?_⟩
+  · rintro rfl
+    rw [key]
+    cases va <;> simp [cmp3]
+  · intro hn he
+    subst he
+    rw [key]
+    have : cmp3 .eq vb vb = some true := by
+      cases vb <;> first | exact absurd rfl hn | simp [cmp3, CmpOp.holds, cmp_self]
+    simp [this, castTo]
+
+/-- ABS of an integer is the DOUBLE nearest to |v| (exact below 2^53; -2^63 has the absolute value 2^63), of a DOUBLE
+    the value with the sign cleared, of NULL NULL; CEIL, FLOOR and ROUND of an integer are that integer as a DOUBLE -/
+theorem abs_def (v k : Int) :
+    strFn1 .abs (.int v) = .ok (dblOfInt (v.natAbs : Int)) ∧
+    strFn1 .abs (.dbl k) = .ok (.dbl (k.natAbs : Int)) ∧
+    strFn1 .abs .null = .ok .null ∧
+    strFn1 .ceil (.int v) = .ok (dblOfInt v) ∧ strFn1 .floor (.int v) = .ok (dblOfInt v) ∧
+    strFn1 .round (.int v) = .ok (dblOfInt v) := ⟨rfl, rfl, rfl, rfl, rfl, rfl⟩
+
+theorem num_fn_examples :
+    strFn1 .abs (.int (-7)) = .ok (.dbl 4619567317775286272) ∧
+    strFn1 .abs (.int (-9223372036854775808)) = .ok (.dbl 4890909195324358656) ∧
+    strFn1 .floor (.dbl (-4612811918334230528)) = .ok (.dbl (-4613937818241073152)) ∧
+    strFn1 .ceil (.dbl (-4612811918334230528)) = .ok (.dbl (-4611686018427387904)) ∧
+    strFn1 .round (.dbl (-4612811918334230528)) = .ok (.dbl (-4613937818241073152)) ∧
+    strFn1 .round (.dbl 4602678819172646912) = .ok (.dbl 4607182418800017408) ∧
+    strFn1 .floor (.dbl (-4593671619917905920)) = .ok (.dbl (-4607182418800017408)) ∧
+    strFn1 .ceil (.dbl (-4593671619917905920)) = .ok (.dbl 0) := by decide
+
+/-- the C19 kind of an integer column type -/
+def kindOfTy : Ty → Option AxVerif.Value.Kind
+  | .int => some .int | .bigint => some .bigint | .uint => some .uint | .biguint => some .biguint
+  | _ => none
+
+theorem cast_aux (lo hi i : Int) (w0 : AxVerif.Value.Value) (hw : lo ≤ i → i ≤ hi → w0.intVal = some i) :
+    match (if lo ≤ i ∧ i ≤ hi then (Except.ok w0 : Except AxVerif.Value.Err AxVerif.Value.Value)
+           else .error .badCast) with
+    | .ok w => (if (decide (lo ≤ i) && decide (i ≤ hi)) = true then (Except.ok (Value.int i) : Except Err Value)
+                else .error .type) = .ok (.int i) ∧ w.intVal = some i
+    | .error _ => (if (decide (lo ≤ i) && decide (i ≤ hi)) = true then (Except.ok (Value.int i) : Except Err Value)
+                else .error .type) = .error .type := by
+  by_cases h : lo ≤ i ∧ i ≤ hi
+  · simp [h, hw h.1 h.2]
+  · have : ¬ ((decide (lo ≤ i) && decide (i ≤ hi)) = true) := by simpa using h
+    simp only [h, if_false]
+    rw [if_neg this]
+
+/-- The cast applied to a produced integer (projection, INSERT, UPDATE, function results) agrees with C19's model of
+    `DataType::try_cast` for every pair of integer kinds: it succeeds with the same integer exactly when `try_cast` does.
+    (The SQL grammar has no CAST expression: these implicit casts are the casts a statement can reach.) -/
+theorem cast_agrees_with_C19 (ty : Ty) (k ks : AxVerif.Value.Kind) (i lo hi : Int)
+    (hk : kindOfTy ty = some k) (hr : ks.intRange = some (lo, hi)) (hlo : lo ≤ i) (hhi : i ≤ hi) :
+    match AxVerif.Value.tryCast {} (AxVerif.Value.Value.ofInt ks i) k with
+    | .ok w => castTo ty (.int i) = .ok (.int i) ∧ w.intVal = some i
+    | .error _ => castTo ty (.int i) = .error .type := by
+  cases ty <;> simp only [kindOfTy, Option.some.injEq, reduceCtorEq] at hk <;> subst hk <;>
+  cases ks <;> simp only [AxVerif.Value.Kind.intRange, Option.some.injEq, Prod.mk.injEq, reduceCtorEq] at hr <;>
+  obtain ⟨rfl, rfl⟩ := hr <;>
+  simp only [AxVerif.Value.tryCast, AxVerif.Value.Value.ofInt, AxVerif.Value.Value.kind, reduceCtorEq, if_false, if_true,
+    AxVerif.Value.Value.intVal, AxVerif.Value.Kind.intRange, castTo, fitsI32, fitsI64, i32Min, i32Max, i64Min, i64Max,
+    u32Max, u64Max] <;>
+  (try simp only [Int.toNat_of_nonneg hlo]) <;>
+  first
+  | exact cast_aux _ _ i _ (by intro h1 h2; simp [AxVerif.Value.Value.intVal, Int.toNat_of_nonneg, *] <;> omega)
+  | (simp [*]; done)
 
 /-! ## Aggregates -/
 
